@@ -51,7 +51,10 @@ IsWrite(decl, form, ctx) ==
     \* the parser reads `[` as an index)
     /\ form \in {"unpack", "unpack1"} => ctx \in {"block", "loop_body"}
     /\ decl \in {"fn", "block"} => ctx \in {"same", "block", "loop_body", "nested_fn", "nested_fn_block"}
-    /\ decl \in {"class_name", "import_mod", "export_member", "alias_member"} => ctx \in {"same", "block"}
+    /\ decl \in {"class_name", "import_mod"} => ctx \in {"same", "block"}
+    \* the members of a module - through the import binding or through another name of the module - are const from everywhere,
+    \* also from inside a function literal or a method that captured the name
+    /\ decl \in {"export_member", "alias_member"} => ctx \in {"same", "block", "nested_fn", "nested_fn_block", "method"}
     /\ decl = "const_field" => ctx \in {"same", "block", "nested_fn"}
     /\ decl = "mod_libname" => ctx \in {"same", "block", "loop_body"}
 
